@@ -1443,6 +1443,134 @@ def orth_init_rule(ctx):
     return res
 
 
+# ---------------------------------------------------------------------------------------
+# INV-ROUND (C02): inverse(forward(x)) == x for the coupling wrapper, by partial evaluation
+# ---------------------------------------------------------------------------------------
+
+
+def inv_round_rule(ctx):
+    """CouplingTransform.forward is evaluated on a symbolic input, its symbolic result is fed to
+    CouplingTransform.inverse (nfstatic/peval.py; the conditioner, the coupling hooks and the
+    optional unconditional transform are uninterpreted), and the result is simplified with the
+    contracts of the parts only:
+        gather(scatter{i: v}, i) = v                      scatter{i: gather(x, i) for all i} = x
+        hook_inverse(hook_forward(v, p), p)[0] = v        U^-1(U(v)) = v
+    The round trip must come back to x and every log-det of the inverse must be the inverse-side
+    twin of a log-det of the forward pass.  (The hooks' own round trips are INV-SIGN / the spline
+    rules; here only the wrapper's plumbing is decided: which features condition, in which order
+    the parts are undone, where the pieces are written back.)"""
+    from ..peval import PEval, Obj, Stage, Sym, SymFn, Index, Undecided as PUndecided, Raises as PRaises, mk_sum, show
+
+    p = ctx.p
+    res = RuleResult("INV-ROUND", "coupling wrapper: inverse(forward(x)) simplifies to x and the log-dets pair up, using only the contracts of the conditioner, the coupling hooks and the unconditional transform")
+    cls = p.find_class("CouplingTransform", "nflows.transforms.coupling")
+    fwd, inv = cls.methods.get("forward"), cls.methods.get("inverse")
+    if fwd is None or inv is None:
+        raise AnalysisIncomplete("CouplingTransform.forward / inverse missing")
+    methods = {nm: fi.node for nm, fi in cls.methods.items() if nm not in ("_coupling_transform_forward", "_coupling_transform_inverse")}
+
+    def simplify(t):
+        if not isinstance(t, tuple) or not t:
+            return t
+        h = t[0]
+        if h == "gather" and isinstance(t[1], tuple) and t[1] and t[1][0] == "scatter":
+            for idx, v in t[1][1]:
+                if idx == t[2]:
+                    return v
+        if h == "scatter":
+            pairs = t[1]
+            if len(pairs) == 2 and all(isinstance(v, tuple) and v and v[0] == "gather" and v[2] == idx for idx, v in pairs) and len({v[1] for _, v in pairs}) == 1:
+                return pairs[0][1][1]  # both index sets (a partition of the features) restored from x
+        if h == "item" and t[2] == 0 and isinstance(t[1], tuple) and t[1][:2] == ("call", "cinv"):
+            kwargs = dict(a for a in t[1][2:] if isinstance(a, tuple) and len(a) == 2 and isinstance(a[0], str))
+            a, pr = kwargs.get("inputs"), kwargs.get("transform_params")
+            if isinstance(a, tuple) and a[:1] == ("item",) and a[2] == 0 and isinstance(a[1], tuple) and a[1][:2] == ("call", "cfwd"):
+                k2 = dict(b for b in a[1][2:] if isinstance(b, tuple) and len(b) == 2 and isinstance(b[0], str))
+                if k2.get("transform_params") == pr:
+                    return k2.get("inputs")
+        if h == "out" and t[2] == "inv" and isinstance(t[3], tuple) and t[3][:1] == ("out",) and t[3][1] == t[1] and t[3][2] == "fwd" and t[3][4] == t[4]:
+            return t[3][3]
+        return t
+
+    def terms_of(t):
+        if isinstance(t, tuple) and t and t[0] == "sum":
+            return list(t[1])
+        if t in (0, 0.0, ("zeros",)):
+            return []
+        return [t]
+
+    for with_u in (False, True):
+        tag = "with an unconditional transform" if with_u else "without unconditional transform"
+        attrs = {
+            "identity_features": Index("id"),
+            "transform_features": Index("tr"),
+            "features": Sym(("features",)),
+            "transform_net": SymFn("net", 1),
+            "_coupling_transform_forward": SymFn("cfwd", 2),
+            "_coupling_transform_inverse": SymFn("cinv", 2),
+            "unconditional_transform": Stage("U") if with_u else None,
+        }
+        pe = PEval(Obj(attrs, methods))
+        pe.simplify = simplify
+        x, cx = Sym(("x",)), Sym(("ctx",))
+        try:
+            y = pe.call_method(fwd.node, [x, cx])
+            if not (isinstance(y, tuple) and len(y) == 2 and all(isinstance(v, Sym) for v in y)):
+                raise PUndecided("forward does not return a pair of tensors")
+            z = pe.call_method(inv.node, [y[0], cx])
+            if not (isinstance(z, tuple) and len(z) == 2 and isinstance(z[0], Sym)):
+                raise PUndecided("inverse does not return a pair")
+        except PUndecided as ex:
+            res.undecide("CouplingTransform round trip %s" % tag, str(ex))
+            continue
+        except PRaises as ex:
+            res.fail(Finding("INV-ROUND", inv.module, inv.qualname, ex.node if ex.node is not None else inv.node, "the round trip %s raises: %s" % (tag, ex.what), construct="round trip %s" % tag))
+            continue
+        back = simplify(z[0].term)
+        if back != ("x",):
+            # say which contract failed to apply
+            why = "inverse(forward(x)) simplifies to `%s`, not to x" % show(back)[:140]
+            calls = [q for q in _subterms_of(back) if isinstance(q, tuple) and q[:2] == ("call", "cinv")]
+            for q in calls:
+                kw = dict(a for a in q[2:] if isinstance(a, tuple) and len(a) == 2 and isinstance(a[0], str))
+                a = kw.get("inputs")
+                if isinstance(a, tuple) and a[:1] == ("item",) and isinstance(a[1], tuple) and a[1][:2] == ("call", "cfwd"):
+                    k2 = dict(b for b in a[1][2:] if isinstance(b, tuple) and len(b) == 2 and isinstance(b[0], str))
+                    if k2.get("transform_params") != kw.get("transform_params"):
+                        why = "the inverse undoes the coupling with parameters `%s` while forward computed them as `%s`: the conditioner does not see the same features in the two directions" % (show(kw.get("transform_params"))[:70], show(k2.get("transform_params"))[:70])
+            res.fail(Finding("INV-ROUND", inv.module, inv.qualname, inv.node, "%s: %s" % (tag, why), construct="round trip %s" % tag))
+            continue
+        # log-dets: every forward term has its inverse-side twin and nothing else
+        ft = terms_of(y[1].term)
+        it = terms_of(z[1].term if isinstance(z[1], Sym) else z[1])
+
+        def twin(t):
+            if isinstance(t, tuple) and t[:1] == ("item",) and t[2] == 1 and isinstance(t[1], tuple) and t[1][:2] == ("call", "cfwd"):
+                kw = dict(a for a in t[1][2:] if isinstance(a, tuple) and len(a) == 2 and isinstance(a[0], str))
+                return ("item", ("call", "cinv", ("inputs", ("item", t[1], 0)), ("transform_params", kw.get("transform_params"))), 1)
+            if isinstance(t, tuple) and t[:1] == ("ld",) and t[2] == "fwd":
+                return ("ld", t[1], "inv", ("out", t[1], "fwd", t[3], t[4]), t[4])
+            return None
+
+        want = sorted((repr(twin(t)) for t in ft))
+        got = sorted(repr(t) for t in it)
+        if None not in [twin(t) for t in ft] and want == got:
+            res.ok("coupling round trip %s: x restored; %d log-det term(s) paired" % (tag, len(ft)))
+        else:
+            res.fail(Finding("INV-ROUND", inv.module, inv.qualname, inv.node, "%s: the inverse's log-det terms %s are not the inverse-side twins of forward's %s" % (tag, [show(t)[:60] for t in it], [show(t)[:60] for t in ft]), construct="log-dets of the round trip %s" % tag))
+    return res
+
+
+def _subterms_of(t):
+    out, stack = [], [t]
+    while stack:
+        v = stack.pop()
+        if isinstance(v, tuple):
+            out.append(v)
+            stack.extend(v)
+    return out
+
+
 def ld_elem_rule(ctx):
     """The scalar nonlinearities sum an elementwise log-derivative: their map must be elementwise."""
     from .c07 import elementwise_rule, SCALAR_TABLE
@@ -1522,7 +1650,11 @@ def inv_state_rule(ctx):
 
 register(
     "C02",
-    [inv_sign_rule, inv_config_rule, inv_pos_rule, inv_state_rule, ld_state_rule],
+    [inv_sign_rule, inv_config_rule, inv_pos_rule, inv_state_rule, ld_state_rule, inv_round_rule],
+    "INV-ROUND: CouplingTransform.forward is partially evaluated on a symbolic input, its result fed to inverse, and the outcome "
+    "simplified with the contracts of the parts only (gather/scatter over the two index buffers, hook_inverse(hook_forward(v, p), p) "
+    "= v, U^-1(U(v)) = v): it must reduce to x and the log-dets must pair up -- which features condition, in which order the parts "
+    "are undone and where the pieces are written back is thereby decided for the wrapper every coupling layer inherits. "
     "INV-SIGN / INV-FLAG: for every direction pair (forward/inverse, the coupling / autoregressive / no-cache hooks, and every "
     "function with an inverse flag incl. the four spline functions) the returned log-dets are expanded symbolically and "
     "flattened to signed leaves through reductions, broadcasts, reshapes and masked stores; the inverse's leaves must be the "
